@@ -179,6 +179,23 @@ func runProperty(w *World, o *checkOpts) *Report {
 			jobs = append(jobs, job{v, ob})
 		}
 	}
+	// table audits
+	for _, a := range w.cs.Audits {
+		if o.prop != "" && !contains(a.Props, o.prop) {
+			continue
+		}
+		if p := w.pkgByPath(a.Pkg); p != nil {
+			a.Pkg = p.Pkg.Name()
+		}
+		obls, errs := w.cidrObligations(a)
+		rep.Errors = append(rep.Errors, errs...)
+		fr := &FuncReport{Name: a.Pkg + ".tables (" + strings.Join(a.Tables, ", ") + ")"}
+		rep.Funcs = append(rep.Funcs, fr)
+		av := &FnVC{w: w, fname: a.Pkg + ".tables", fc: &FuncContract{Pkg: a.Pkg, Name: "tables (" + strings.Join(a.Tables, ", ") + ")", Props: a.Props}}
+		for _, ob := range obls {
+			jobs = append(jobs, job{av, ob})
+		}
+	}
 	qdir := filepath.Join(os.TempDir(), fmt.Sprintf("foxvc-%d", os.Getpid()))
 	os.MkdirAll(qdir, 0o755)
 	if !o.keep {
@@ -196,14 +213,22 @@ func runProperty(w *World, o *checkOpts) *Report {
 		go func(j job) {
 			defer wg.Done()
 			defer func() { <-sem }()
-			text := w.queryText(j.v, j.o, 0)
+			var text string
+			if j.o.RawQuery != "" {
+				text = j.o.RawQuery
+			} else {
+				text = w.queryText(j.v, j.o, 0)
+			}
 			file := writeQuery(qdir, j.o.Name, text)
 			want := "unsat"
 			if j.o.Cover {
 				want = "sat"
 			}
 			j.o.Result = solve(file, quick, full, want)
-			if j.o.Result.Status == "sat" && !j.o.Cover && len(j.o.Vars) > 0 {
+			if j.o.RawQuery != "" && j.o.Result.Status == "sat" {
+				j.o.Witness = bvModelIP(j.o.Result.Output, j.o.RawBits)
+			}
+			if j.o.RawQuery == "" && j.o.Result.Status == "sat" && !j.o.Cover && len(j.o.Vars) > 0 {
 				// ask again for a small, printable model
 				text2 := w.queryText(j.v, j.o, 24)
 				file2 := writeQuery(qdir, j.o.Name+".model", text2)
@@ -234,7 +259,7 @@ func runProperty(w *World, o *checkOpts) *Report {
 	searchDone := map[string]*ReplayResult{}
 	for _, j := range jobs {
 		ob := j.o
-		if ob.Cover || ob.Result.Status == "unsat" {
+		if ob.Cover || ob.Result.Status == "unsat" || ob.RawQuery != "" {
 			continue
 		}
 		if ob.Result.Model == nil {
@@ -285,6 +310,9 @@ func runProperty(w *World, o *checkOpts) *Report {
 		r := ob.Result
 		rep.SolverMs += r.Ms
 		fr := byFunc[j.v.fc.Pkg+"."+j.v.fc.Name]
+		if fr == nil {
+			fr = byFunc[j.v.fc.Pkg+"."+j.v.fc.Name]
+		}
 		ok := false
 		if ob.Cover {
 			// a cover must be satisfiable (unknown is tolerated: reachability could not be refuted).
@@ -391,6 +419,12 @@ func (rep *Report) finish(o *checkOpts) int {
 		suffix := " no-failing-input-found"
 		if ob.Result.Model != nil {
 			rp["model"] = decodeModel(ob)
+		}
+		if ob.Witness != "" {
+			// the witness is itself the failing input: an address inside the table entry that is globally routable
+			rp["witness_address"] = ob.Witness
+			fmt.Printf("  witness: address %s lies in the table entry but in no non-global block\n", ob.Witness)
+			suffix = ""
 		}
 		if ob.Replay != nil {
 			rp["replay"] = ob.Replay
